@@ -422,6 +422,7 @@ pub fn cut_unit(ctx: &Ctx, rng: &mut Rng, o: &mut Out) {
     }
   }
   o.oracle("cut-matches-left-nested", true, json!({"cases": nested_cases}));
+  comments_in_patterns(o);
   o.oracle("cut-matches-done", true, json!({"cases": oracle_cases, "guard_pass": guard_pass, "guard_total": guard_total}));
 }
 
@@ -443,6 +444,77 @@ fn struct_identical(a: &N, b: &N) -> bool {
 }
 
 /// C03: near misses — patterns cut from one node, tried on other nodes of the same file
+/// comments are part of a pattern: a pattern cut from code WITH a comment keeps the comment node,
+/// and under cst / smart / ast it does not match the same code without the comment (under relaxed
+/// and signature comments are ignored)
+pub fn comments_in_patterns(o: &mut Out) {
+  let sources = corpus::load();
+  let mut comment_cases = 0usize;
+  for src in sources.iter().filter(|s| !s.name.starts_with("deep/")) {
+    let grep = src.lang.ast_grep(&src.text);
+    let root = grep.root();
+    let tsl = src.lang.get_ts_language();
+    let is_comment = |k: u16| tsl.node_kind_for_id(k).map(|n| n.contains("comment")).unwrap_or(false);
+    let mut here = 0usize;
+    for n in root.dfs() {
+      if here >= 3 {
+        break;
+      }
+      if !n.is_named() || n.range().len() > 300 || has_error(&n) {
+        continue;
+      }
+      let comments: Vec<N> = n.dfs().skip(1).filter(|d| d.is_named() && is_comment(d.kind_id())).collect();
+      if comments.is_empty() || comments.len() > 2 || is_comment(n.kind_id()) {
+        continue;
+      }
+      let text = n.text().to_string();
+      let Ok(pat) = Pattern::try_new(&text, src.lang) else { continue };
+      // the pattern must match its own node (else the text is no faithful pattern of it)
+      if pat.clone().with_strictness(MatchStrictness::Cst).match_node(n.clone()).is_none() {
+        continue;
+      }
+      here += 1;
+      comment_cases += 1;
+      fn count(p: &ast_grep_core::matcher::PatternNode, f: &dyn Fn(u16) -> bool) -> usize {
+        match p {
+          ast_grep_core::matcher::PatternNode::MetaVar { .. } => 0,
+          ast_grep_core::matcher::PatternNode::Terminal { kind_id, .. } => f(*kind_id) as usize,
+          ast_grep_core::matcher::PatternNode::Internal { kind_id, children } => f(*kind_id) as usize + children.iter().map(|c| count(c, f)).sum::<usize>(),
+        }
+      }
+      let in_pattern = count(&pat.node, &is_comment);
+      if in_pattern != comments.len() {
+        o.oracle("cut-matches", false, json!({"fp": "pattern tree loses the comment nodes of its text", "lang": src.lang.to_string(), "file": src.name,
+          "pattern": text, "comments_in_code": comments.len(), "comments_in_pattern": in_pattern}));
+        continue;
+      }
+      // the same code without its first comment
+      let c = &comments[0];
+      let (cs, ce) = (c.range().start - n.range().start, c.range().end - n.range().start);
+      let without = format!("{}{}", &text[..cs], &text[ce..]);
+      let g2 = src.lang.ast_grep(&without);
+      if g2.root().dfs().any(|d| d.is_error() || d.get_ts_node().is_missing()) {
+        continue;
+      }
+      let left = g2.root().dfs().filter(|d| d.is_named() && is_comment(d.kind_id())).count();
+      if left + 1 != comments.len() {
+        continue;
+      }
+      for (sname, mk) in STRICT {
+        if !matches!(sname, "cst" | "smart" | "ast") {
+          continue;
+        }
+        let p = pat.clone().with_strictness(mk());
+        if let Some(m) = g2.root().find(&p) {
+          o.oracle("cut-matches", false, json!({"fp": format!("a pattern with a comment matches code without it, strictness={sname}"), "lang": src.lang.to_string(), "file": src.name,
+            "pattern": text, "code": without, "matched": m.text()}));
+        }
+      }
+    }
+  }
+  o.oracle("cut-matches-comments", true, json!({"cases": comment_cases}));
+}
+
 /// The matcher combinators of the library (`Op::every(..).and(..)`, `Op::either(..).or(..)`, `Op::not`,
 /// `Op::all`, `Op::any`) through the search entry points: `find` = the first of the per-node matches,
 /// `find_all` = all of them, `replace` edits the first one — whatever a candidate that was tried and
@@ -497,6 +569,7 @@ pub fn ops_search(o: &mut Out) {
 pub fn near_miss_unit(ctx: &Ctx, rng: &mut Rng, o: &mut Out) {
   yaml_strictness(o);
   ops_search(o);
+  comments_in_patterns(o);
   let sources = corpus::load();
   let variants = if ctx.thorough { 6 } else { 2 };
   let pats_per_src = if ctx.thorough { 60 } else { 30 };
